@@ -144,6 +144,10 @@ OPS = {
     "form-bad-signature": [M("pair", lambda s: rename(s, "Potential-Form", "f(r,a)", "f r a")), M("pair", lambda s: rename(s, "Potential-Form", "f(r,a)", "f(r,a"))],
     "form-dotted-name": [M("pair", lambda s: rename(s, "Potential-Form", "f(r,a)", "my.f(r,a)"))],
     "form-no-parameters": [M("pair", lambda s: (rename(s, "Potential-Form", "f(r,a)", "f()"), setv(s, "Potential-Form", "f()", "1.0")))],
+    # a parameter named like one of the expression library's built-in constants cannot be bound
+    "form-reserved-parameter": [M("pair", lambda s: (rename(s, "Potential-Form", "f(r,a)", "f(r,epsilon)"), setv(s, "Potential-Form", "f(r,epsilon)", "epsilon*r + 1"))),
+                                M("pair", lambda s: (rename(s, "Potential-Form", "f(r,a)", "f(r,pi)"), setv(s, "Potential-Form", "f(r,pi)", "pi*r + 1"))),
+                                M("eam", lambda s: (rename(s, "Potential-Form", "f(r,a)", "f(r,inf)"), setv(s, "Potential-Form", "f(r,inf)", "inf*r + 1")))],
     "form-numeric-parameter": [M("pair", lambda s: rename(s, "Potential-Form", "f(r,a)", "f(r,1)"))],
     "form-name-clash": [M("pair", lambda s: sec(s, "Potential-Form")[1].append(["sin(r)", "r"])), M("pair", lambda s: sec(s, "Potential-Form")[1].append(["if(r)", "r"]))],
     "form-same-label-other-arity": [M("pair", lambda s: sec(s, "Potential-Form")[1].append(["f(r)", "r"]))],
@@ -300,6 +304,23 @@ def main(prop, tier, seed):
                     if got[0] != "ok":
                         run.violation(dict(engine="validate", clause="valid-refused", op="definition", route="api"),
                                       "[valid-refused] well-formed definition '%s' in a %s model: %s %s" % (dd, fam, got[0], got[1]), dict(ini=render(secs)))
+            # ---- the models the repository ships (manual examples, quick start, tests' resources) are well-formed: each must be
+            # accepted as it stands, through the command line and the Python API
+            import glob
+            from lib import boot as _boot
+            shipped = sorted(glob.glob(os.path.join(_boot.REPO, "**", "*.aspot"), recursive=True))
+            for path in shipped:
+                text = open(path).read()
+                rel = os.path.relpath(path, _boot.REPO)
+                binary = "excel" in text.split("[Tabulation]")[-1].split("[")[0]
+                for route, got in (("api", run_api(text, binary)), ("cli", run_cli_file(text, d, binary))):
+                    run.evaluations += 1
+                    run.replayed += 1
+                    run.distinct("shipped:%s:%s" % (rel, route))
+                    if got[0] != "ok" or not got[2]:
+                        run.violation(dict(engine="validate", clause="valid-refused", op="shipped:" + rel, route=route),
+                                      "[valid-refused] %s (shipped with the repository) via %s: %s %s" % (rel, route, got[0], got[1]), dict(file=rel))
+            run.notes["shipped_models_accepted"] = len(shipped)
             # ---- every malformation operator
             for o in sorted(ops, key=lambda o: o["id"]):
                 for vi, (fam, fn) in enumerate(OPS[o["id"]]):
@@ -324,7 +345,7 @@ def main(prop, tier, seed):
                             run.violation(dict(sig, clause="table-left-behind"), "[table-left-behind] %s via %s: configuration error reported but %d characters of output exist" % (o["id"], route, len(got[2])), dict(ini=text, op=o))
         finally:
             shutil.rmtree(d, ignore_errors=True)
-        run.rule = "cases = %d malformation operators (TLC) x 1-3 concrete variants on pair / DL_POLY / EAM / FS / ADP base models x {API, CLI}; + every documented target spelling and 9 well-formed definitions on 5 families (must be accepted); non-trivial = every case; distinct by (operator, variant, route)" % len(ops)
+        run.rule = "cases = %d malformation operators (TLC) x 1-3 concrete variants on pair / DL_POLY / EAM / FS / ADP base models x {API, CLI}; + every documented target spelling, 9 well-formed definitions on 5 families and the 22 potable files shipped with the repository (must be accepted); non-trivial = every case; distinct by (operator, variant, route)" % len(ops)
     except tlc.TLCError as e:
         run.machinery(str(e))
     return run.finish()
